@@ -180,7 +180,7 @@ package compile
 //@   bodyensures 2 float_const: tp(d, old(d.ip)) == 3 ==> typeis(constants[rangeindex + 1], float64) && fbits(as(constants[rangeindex + 1], float64)) == tp(d, old(d.ip) + 1) && d.ip == old(d.ip) + 2 && d.is == old(d.is)
 
 // the decoded line table is read only after lntOnce.Do has run (C05: no unsynchronised read)
-//@ readafter [C05] Funcode.lnt : sync.Once.Do except Funcode.decodeLNT
+//@ readafter [C05,C03,C16] Funcode.lnt : sync.Once.Do except Funcode.decodeLNT
 
 // ---- positions of fallible instructions (C16): an instruction that can fail at run time is
 // emitted only while a source position set by setPos is pending (emit consumes it), so the
@@ -205,3 +205,25 @@ package compile
 // ---- determinism and thread-compatibility (C03, C05): no function of the package writes a
 // package-level variable at run time (what one execution left there another would read)
 //@ globals_readonly [C03,C05] none
+
+// ---- a compiled program is shared by every thread that runs it (C05): once it leaves package compile (compiled or
+// decoded) neither the Program nor its constants are written again
+//@ protect [C05] Program.* : inpkg(compile)
+//@ protect [C05] Program.Constants[*] : inpkg(compile)
+
+// ---- call argument limits (C09, C02): the compiler refuses a call only where the resolver's rule
+// (at most 255 positional and at most 255 named arguments, each counted separately) is exceeded
+//@ func fcomp.args
+//@   prop C09 C02
+//@   assert /panic\("too many arguments in call"\)/ compiler_limit_is_the_resolver_limit: p >= 256 || n >= 256
+
+// ---- the recursion check is governed by the file's option (C09): whatever is compiled from
+// options opts -- a file or a single expression -- carries opts.Recursion
+// (File drives the whole compiler, which is outside the verified subset -- maps, closures, dynamic
+// calls -- so its clause is an assumption; Expr and its caller are checked against it)
+//@ func File
+//@   prop C09
+//@   abstraction recursion_option_kept: result != nil && result.Recursion == old(opts.Recursion) && opts.Recursion == old(opts.Recursion)
+//@ func Expr
+//@   prop C09
+//@   ensures recursion_option_kept: result != nil && result.Recursion == old(opts.Recursion) && opts.Recursion == old(opts.Recursion)
